@@ -98,6 +98,12 @@ def liftRes {σ α : Type} (r : Res α) : GoM σ α := fun s => (r, s)
 def mapSet {α : Type} (m : List (Int × α)) (k : Int) (v : α) : List (Int × α) :=
   if m.any (·.1 == k) then m.map (fun p => if p.1 == k then (k, v) else p) else m ++ [(k, v)]
 
+/-- `len(s)` of a string (bytes) -/
+def lenS (s : String) : Int := s.utf8ByteSize
+
+/-- a map value that may be nil, as a map: nil is the empty map -/
+def mapOf {α : Type} (m : Option (List (Int × α))) : List (Int × α) := m.getD []
+
 /-- `m[k]` on a map field that may be nil: a nil map reads as the zero value -/
 def mapGetOpt (m : Option (List (Int × Int))) (k : Int) : Int :=
   match m with
